@@ -396,3 +396,100 @@ def notalpha_fallback(ctx, rule):
                  "NotAlpha fallback broken (matches receiver NotAlpha: %s, Some(NotAlpha) on true branch: %s, "
                  "NotAlpha arm is !is_alphabetic: %s)" % (recv_ok, some_ok, arm_ok),
                  {"witness": "title 'b-cd', query 'bcd': the separator is charged the default cost 1.0"})
+
+
+def word_shape_rules(ctx, rule):
+    """R15.h: WordSplit::next and WordShape::strip keep the `fin` flag and the slice arithmetic in shape"""
+    facts = ctx.facts
+    # WordShape::strip: fin = fin || right != 0 ; slice.0 += left ; slice.1 -= right
+    b = None
+    for x in facts.fns():
+        if x.cn.endswith("WordShape::strip"):
+            b = x
+    if ctx.require(rule, "WordShape::strip", b):
+        sy = ctx.sym(b)
+        asg = {}
+        for bi, si, st in b.iter_stmts():
+            if st["k"] == "assign" and st["place"]["p"] and not b.blocks[bi]["cleanup"]:
+                pl = sy.place(st["place"])
+                pth = U.field_path(pl)
+                if pth and pth[0] == "arg" and pth[1] == 1:
+                    asg.setdefault(".".join(pth[2]), []).append((bi, st, sy.rvalue(st["rv"])))
+        def is_count_of(e, rev):
+            e = S.strip_refs(e)
+            calls = [c[1].rsplit("::", 1)[-1] for c in S.walk(e) if isinstance(c, tuple) and c and c[0] == "call"]
+            return ("count" in calls) and (("rev" in calls) == rev)
+        k = "strip-slice"
+        s0 = asg.get("slice.0", [])
+        s1 = asg.get("slice.1", [])
+        ok = len(s0) == 1 and len(s1) == 1
+        if ok:
+            e0, e1 = s0[0][2], s1[0][2]
+            ok = e0[0] == "binop" and e0[1] == "Add" and is_count_of(e0[3], False) and \
+                e1[0] == "binop" and e1[1] == "Sub" and is_count_of(e1[3], True)
+        if ok:
+            ctx.ok(rule, k, b.where(), "strip advances slice.0 by the leading and reduces slice.1 by the trailing run", nontrivial=True)
+        else:
+            ctx.fail(rule, k, b.where(), "WordShape::strip no longer moves slice.0 by the leading run and slice.1 by the trailing run",
+                     {"witness": "'(word)' keeps a parenthesis or loses a letter"})
+        k = "strip-fin"
+        fa = asg.get("fin", [])
+        ok = False
+        for (bi, st, e) in fa:
+            alts = U.flatten_phi(e)
+            # fin || right != 0   is lowered to  phi(true | right != 0)
+            txt = S.show(e, b)
+        # MIR lowers `a || b` into branches writing a temp; accept: some path assigns fin from `Ne(right, 0)` and another from `true`
+        ne0 = False
+        for bi, si, st in b.iter_stmts():
+            if st["k"] == "assign" and st["rv"]["k"] == "binop" and st["rv"]["op"] == "Ne":
+                e = sy.rvalue(st["rv"])
+                if S.const_value(e[3]) == 0 and is_count_of(e[2], True):
+                    ne0 = True
+        if fa and ne0:
+            ctx.ok(rule, k, b.where(), "a word that loses trailing characters becomes finished (fin = fin || right != 0)", nontrivial=True)
+        else:
+            ctx.fail(rule, k, b.where(), "WordShape::strip no longer marks a word finished when trailing characters were stripped",
+                     {"witness": "query 'foo)' keeps an unfinished last word"})
+    # WordSplit::next: fin = word.fin || char_offset + len < word.len()
+    nb = None
+    for x in facts.fns():
+        if x.kind == "method" and x.impl_trait == "std::iter::Iterator" and "WordSplit" in (x.impl_self or ""):
+            nb = x
+    if ctx.require(rule, "WordSplit::next", nb):
+        sy = ctx.sym(nb)
+        found = False
+        for bi, si, st in nb.iter_stmts():
+            if st["k"] == "assign" and st["rv"]["k"] == "binop" and st["rv"]["op"] == "Lt" and not nb.blocks[bi]["cleanup"]:
+                e = sy.rvalue(st["rv"])
+                lhs, rhs = e[2], e[3]
+                if lhs[0] == "binop" and lhs[1] == "Add" and rhs[0] == "call" and rhs[1].endswith("Word::len"):
+                    found = True
+        k = "split-fin"
+        if found:
+            ctx.ok(rule, k, nb.where(), "a split word is finished when something follows it inside the parent word "
+                   "(char_offset + len < word.len())", nontrivial=True)
+        else:
+            ctx.fail(rule, k, nb.where(), "WordSplit::next no longer derives `fin` from `char_offset + len < word.len()`",
+                     {"witness": "in the query 'foo bar' the first word stays unfinished / the last word becomes finished"})
+        # slice of the produced word: (word.slice.0 + char_offset, word.slice.0 + char_offset + len)
+        k = "split-slice"
+        good = False
+        for bi, si, st in nb.iter_stmts():
+            if st["k"] == "assign" and st["rv"]["k"] == "agg" and st["rv"].get("akind") == "adt" and \
+                    st["rv"].get("did", "").endswith("WordShape"):
+                e = sy.rvalue(st["rv"])
+                names = list(e[4])
+                if "slice" in names and "stem" in names:
+                    sl = S.strip_refs(e[3][names.index("slice")])
+                    stem = S.strip_refs(e[3][names.index("stem")])
+                    if sl[0] == "agg" and len(sl[3]) == 2:
+                        a0, a1 = sl[3]
+                        if a0[0] == "binop" and a0[1] == "Add" and a1[0] == "binop" and a1[1] == "Add" and \
+                                S.norm(a1[2]) == S.norm(a0) and S.norm(a1[3]) == S.norm(stem):
+                            good = True
+        if good:
+            ctx.ok(rule, k, nb.where(), "split words span (start, start + len) with stem = len", nontrivial=True)
+        else:
+            ctx.fail(rule, k, nb.where(), "WordSplit::next no longer builds words as (start, start+len) with stem = len",
+                     {"witness": "words overlap or lose their last character"})
